@@ -74,6 +74,14 @@ func (o *allocOracle) mkCase(s *ctlSys, hist []verifrt.Event) allocCase {
 				x += " [crash right after the status write persisted]"
 			}
 			c.Readable = append(c.Readable, x)
+		case "pool":
+			x := "deliver pools"
+			if e.B > 0 {
+				x += " [listing " + poolFaultKinds[e.B-1] + " objects fails once]"
+			}
+			c.Readable = append(c.Readable, x)
+		case "poolresync":
+			c.Readable = append(c.Readable, "pool reconciler re-triggered (nothing it reads changed)")
 		default:
 			c.Readable = append(c.Readable, e.Kind)
 		}
@@ -295,7 +303,7 @@ func (o *allocOracle) after(sys verifrt.System, hist []verifrt.Event, ev verifrt
 			}
 			o.priorityOracle(s, hist, ew, e, ips)
 		}
-		if isNew && s.quiescent() && s.appliedLayout == s.layout {
+		if isNew && s.quiescent() && s.layoutSettled() {
 			for k, svc := range svcs {
 				ips := ipsOf(statusOf(svc))
 				if len(ips) == 0 {
@@ -349,7 +357,7 @@ func (o *allocOracle) after(sys verifrt.System, hist []verifrt.Event, ev verifrt
 				fmt.Sprintf("allocator holds %v, statuses say %v", holders, statusHold))
 		}
 	}
-	if prop == "C07" && isNew && s.appliedLayout == s.layout {
+	if prop == "C07" && isNew && s.layoutSettled() {
 		for k, svc := range svcs {
 			if statusOf(svc) != "" || svc.Spec.Type != v1.ServiceTypeLoadBalancer {
 				continue
@@ -366,10 +374,10 @@ func (o *allocOracle) after(sys verifrt.System, hist []verifrt.Event, ev verifrt
 			}
 		}
 	}
-	if prop == "C03" && s.refKind == "quiescent" && s.appliedLayout == s.layout {
+	if prop == "C03" && s.refKind == "quiescent" && s.layoutSettled() {
 		o.keepOracle(s, hist, "C03", svcs, w, statusHold)
 	}
-	if prop == "C06" && s.refKind == "crash" && s.appliedLayout == s.layout {
+	if prop == "C06" && s.refKind == "crash" && s.layoutSettled() {
 		o.keepOracle(s, hist, "C06", svcs, w, statusHold)
 		// no steal
 		for k, svc := range svcs {
@@ -829,7 +837,7 @@ func runAlloc(t *testing.T, prop string) {
 		// one failing status write (no crash) is part of the environment of C03 in the universes where a service
 		// can be rewritten while keeping its address (PreferDualStack top-up)
 		faultMenu = true
-		menus = "fault"
+		menus = "fault+poolfault"
 	}
 	if d := os.Getenv("VERIF_DEPTH"); d != "" {
 		fmt.Sscan(d, &depth)
@@ -872,6 +880,7 @@ func runAlloc(t *testing.T, prop string) {
 		}
 		faultMenu = strings.Contains(c.Menus, "fault")
 		crashMenu = strings.Contains(c.Menus, "crash")
+		poolFaultMenu = strings.Contains(c.Menus, "poolfault")
 		for _, u := range universes(c.Thorough) {
 			if u.Name == c.Universe {
 				o := &allocOracle{prop: prop, res: res, u: u, thorough: c.Thorough, menus: c.Menus}
@@ -1003,6 +1012,15 @@ func runAlloc(t *testing.T, prop string) {
 			maxFault := 0
 			if prop == "C03" && thorough && u.Name == "dual" {
 				maxFault = 1 // depth 4 + one failing write reaches "top-up write fails while another service allocates"
+			}
+			poolFaultMenu = false
+			if prop == "C03" {
+				faultMenu = true
+			}
+			if prop == "C03" && !(thorough && u.Name == "dual") && (u.Name == "policy" || u.Name == "reconf") {
+				// a failing List in the pool reconciler (namespaces, pools, communities): nothing in the cluster changed, so
+				// no service may move
+				faultMenu, poolFaultMenu, maxFault = false, true, 1
 			}
 			if prop == "C06" {
 				maxFault = 1
